@@ -103,17 +103,18 @@ func apply(kind, tok string, old []byte) ([]byte, error) {
 }
 
 type runner struct {
-	dir     string
-	data    string
-	mpath   string
-	witness string
-	mu      sync.Mutex
-	events  []Event
-	l1      []string
-	nops    int
-	inject  Inject
-	shared  *lockedfile.Mutex
-	free    *os.File // free mode: shared O_APPEND log
+	dir      string
+	data     string
+	mpath    string
+	witness  string
+	mu       sync.Mutex
+	events   []Event
+	l1       []string
+	nops     int
+	inject   Inject
+	shared   *lockedfile.Mutex
+	children []*exec.Cmd
+	free     *os.File // free mode: shared O_APPEND log
 }
 
 func (r *runner) log(e Event) {
@@ -238,6 +239,20 @@ func (r *runner) actor(name string, ops []Op) func() {
 					f, err = lockedfile.Edit(r.data)
 				case "create":
 					f, err = lockedfile.Create(r.data)
+				case "wx":
+					// a write-lock holder whose descriptor is also held by a child process (as in the fork/exec
+					// window of any concurrent command start, here made deterministic through ExtraFiles):
+					// Close must still release the lock for everybody
+					f, err = lockedfile.Edit(r.data)
+					if err == nil {
+						c := exec.Command("sleep", "1000")
+						c.ExtraFiles = []*os.File{f.File.File}
+						if cerr := c.Start(); cerr == nil {
+							r.mu.Lock()
+							r.children = append(r.children, c)
+							r.mu.Unlock()
+						}
+					}
 				}
 				if err != nil {
 					r.log(Event{Ev: "ret", A: name, Op: o.Op, Res: "err"})
@@ -309,6 +324,10 @@ func runOne(family, mode string, cfg Config, strat vsched.Strategy, inj Inject) 
 		}
 	})
 	vos.SetInterceptor(nil)
+	for _, c := range r.children {
+		c.Process.Kill()
+		c.Wait()
+	}
 	final, _ := os.ReadFile(r.data)
 	rec := &RunRec{Family: family, Mode: mode, Prog: cfg.Prog, Init: cfg.Init, Inject: inj, Events: r.events, End: out.Status,
 		Final: chars(final), L1: append([]string{}, r.l1...), Count: 1}
